@@ -722,8 +722,12 @@ def r5_suspect_once(ctx, f, rep):
             rep.violation('C12-R5', b.nname, 'next-not-consulted', 'a probe tick returns without asking Members::next for a '
                           'target exactly once', facts={'calls': len(nx)})
             continue
-        known = q.option_known(f, p, len(p.events), ('call', nx[0]['id']))
-        payload = ('fieldv', ('call', nx[0]['id']), '0', 'Some')
+        target = ('call', nx[0]['id'])
+        for c_ in p.calls():        # `next(..).cloned()`: the Option tested is a copy of what next returned
+            if c_['res'] in ('core::option::Option::cloned', 'core::option::Option::copied') and c_['args'][0] == target:
+                target = ('call', c_['id'])
+        known = q.option_known(f, p, len(p.events), target)
+        payload = ('fieldv', target, '0', 'Some')
         if known == 'Some':
             good = len(st) == 1 and len(pings) == 1 and q.mentions(st[0]['args'][1], lambda x: x == payload)
         elif known == 'None':
